@@ -27,7 +27,9 @@ type derefSite struct {
 }
 
 func (c *Ctx) derefSites(pkgs map[string]bool) (sites []derefSite) {
-	t := NewTaint(c, c.referenceSpec())
+	spec := c.referenceSpec()
+	spec.ElemMay = c.refListElems()
+	t := NewTaint(c, spec)
 	objT := c.TypeNamed("object", "Object")
 	refT := c.TypeNamed("object", "Reference")
 	mechanism := map[int64]bool{}
@@ -173,6 +175,11 @@ var derefExceptions = map[string]string{
 	"eval.convertObjectToASTNode | type assertion to object.Quote":   "same value as above (type switch)",
 }
 
+// derefFuncExceptions: whole functions, keyed by name.
+var derefFuncExceptions = map[string]string{
+	"object.Hashable": "deliberate: a Reference (an argument that is a variable of an outer scope) takes the default arm and is reported not hashable, so the call is not memoized on a value that can change (C04.R4 requires exactly that)",
+}
+
 // checkDerefBeforeTest: the rule.
 func (c *Ctx) checkDerefBeforeTest(r *Report, rule string) {
 	sites := c.derefSites(map[string]bool{"eval": true, "object": true, "extensions": true})
@@ -190,8 +197,10 @@ func (c *Ctx) checkDerefBeforeTest(r *Report, rule string) {
 			r.Ok(rule, fname, desc, c.Pos(instrPos(s.at)))
 		case derefExceptions[key] != "":
 			r.Abstain(rule, fname, desc, c.Pos(instrPos(s.at)), derefExceptions[key])
+		case derefFuncExceptions[fname] != "":
+			r.Abstain(rule, fname, desc, c.Pos(instrPos(s.at)), derefFuncExceptions[fname])
 		default:
-			r.Fail(rule, fname, desc, c.Pos(instrPos(s.at)), "the tested value ("+s.v.Name()+") can be an object.Reference (a variable of an outer scope as evalInternal / Environment.Get hand it back) and no object.Value(), State.Eval or REFERENCE test precedes the test on this path: the test fails although the variable holds a value of the tested type (flag=true; func f(){if flag {1}}; f() is an error)")
+			r.Fail(rule, fname, desc, c.Pos(instrPos(s.at)), "the tested value ("+s.v.Name()+") can be an object.Reference (a variable of an outer scope as evalInternal / Environment.Get hand it back, possibly as an element of an argument list that was not dereferenced: positions declared ANY or beyond the declared types of an extension) and no object.Value(), State.Eval or REFERENCE test precedes the test on this path: the test fails although the variable holds a value of the tested type (flag=true; func f(){if flag {1}}; f() is an error)")
 		}
 	}
 	r.Note("%s: %d type tests on object.Object values examined", rule, len(sites))
@@ -223,5 +232,139 @@ func init() {
 			}
 			fmt.Printf("%s | %s | %s | %s\n", c.Pos(instrPos(s.at)), ssaFuncName(s.fn), s.what, s.v.Name())
 		}
+	}
+}
+
+// refListElems: may an element read from a []Object list be a Reference?
+//
+//   - in an extension callback: by the registry (extreg). applyExtension dereferences the arguments whose
+//     declared type is not ANY, in place, before the callback runs; positions declared ANY and positions
+//     beyond the declared types (variadic callbacks) are handed over as evaluated;
+//   - elsewhere: by the list analysis of reflist.go (lists filled from evalInternal results hold
+//     References until a full Value() sweep).
+func (c *Ctx) refListElems() func(ia *ssa.IndexAddr) bool {
+	rl := c.NewRefLists()
+	type cbInfo struct{ regs []*Registration }
+	cbs := map[*ssa.Function]*cbInfo{}
+	for _, reg := range c.ExtReg() {
+		if reg.Callback == nil {
+			continue
+		}
+		introspection := false
+		for _, n := range reg.Names {
+			if n == "type" {
+				introspection = true // shows References on purpose
+			}
+		}
+		if introspection {
+			if cbs[reg.Callback] == nil {
+				cbs[reg.Callback] = &cbInfo{}
+			}
+			continue
+		}
+		if cbs[reg.Callback] == nil {
+			cbs[reg.Callback] = &cbInfo{}
+		}
+		cbs[reg.Callback].regs = append(cbs[reg.Callback].regs, reg)
+	}
+	mayAt := func(reg *Registration, i int) bool {
+		if i < len(reg.ArgTypes) {
+			return reg.ArgTypes[i] == "ANY"
+		}
+		return reg.MaxArgs == -1 || reg.MaxArgs > len(reg.ArgTypes)
+	}
+	mayFrom := func(reg *Registration, lo int) bool {
+		for i := lo; i < len(reg.ArgTypes); i++ {
+			if reg.ArgTypes[i] == "ANY" {
+				return true
+			}
+		}
+		return reg.MaxArgs == -1 || reg.MaxArgs > len(reg.ArgTypes)
+	}
+	// strip slices: the list v is base[lo:] (lo = -1: unknown offset)
+	strip := func(v ssa.Value) (ssa.Value, int) {
+		lo := 0
+		for {
+			sl, ok := v.(*ssa.Slice)
+			if !ok {
+				return v, lo
+			}
+			if sl.Low != nil && lo >= 0 {
+				if k, isK := constInt(sl.Low); isK {
+					lo += int(k)
+				} else {
+					lo = -1
+				}
+			}
+			v = sl.X
+		}
+	}
+	// argLists: the callbacks (with the offset) whose argument list a []Object value is; ok=false when it is
+	// something else
+	type origin struct {
+		info *cbInfo
+		lo   int
+	}
+	var argLists func(v ssa.Value, depth int) ([]origin, bool)
+	argLists = func(v ssa.Value, depth int) ([]origin, bool) {
+		base, lo := strip(v)
+		p, ok := base.(*ssa.Parameter)
+		if !ok || depth > 3 {
+			return nil, false
+		}
+		fn := p.Parent()
+		if info := cbs[fn]; info != nil && len(fn.Params) > 0 && p == fn.Params[len(fn.Params)-1] {
+			return []origin{{info, lo}}, true
+		}
+		// a helper: every caller hands it (a slice of) a callback's argument list
+		sites, ok := c.argsAtCallSites(p)
+		if !ok || len(sites) == 0 {
+			return nil, false
+		}
+		var res []origin
+		for _, s := range sites {
+			os, ok := argLists(s.v, depth+1)
+			if !ok {
+				return nil, false
+			}
+			for _, o := range os {
+				if lo < 0 || o.lo < 0 {
+					o.lo = -1
+				} else {
+					o.lo += lo
+				}
+				res = append(res, o)
+			}
+		}
+		return res, true
+	}
+	return func(ia *ssa.IndexAddr) bool {
+		origins, ok := argLists(ia.X, 0)
+		if !ok {
+			if !rl.isList(ia.X) {
+				return false
+			}
+			return rl.rawAt(ia.X, ia, map[ssa.Value]bool{})
+		}
+		for _, o := range origins {
+			for _, reg := range o.info.regs {
+				k, isK := constInt(ia.Index)
+				switch {
+				case isK && o.lo >= 0:
+					if mayAt(reg, o.lo+int(k)) {
+						return true
+					}
+				case o.lo >= 0:
+					if mayFrom(reg, o.lo) {
+						return true
+					}
+				default:
+					if mayFrom(reg, 0) {
+						return true
+					}
+				}
+			}
+		}
+		return false
 	}
 }
